@@ -1,6 +1,7 @@
 /- Line-protocol verbs for C08. -/
 import FwdVerif.Model.C08
 import FwdVerif.Model.C08Stack
+import FwdVerif.Model.C08Seq
 
 namespace FwdVerif
 namespace C08
@@ -104,6 +105,32 @@ def handle : List String → String
           | .data d => s!"d:{hexOfBytes d}" | .wrote => "w" | .addr a => s!"a:{encSel a}"
           | .header h => s!"h:{h.version}" | .fail e => s!"e:{encCls e.cls}" | .panic => "panic"
         s!"runs={c.runs} {joinList2 (outs.map enc)}"
+  /- seq <timeout-ms> <fin> <wire> <later> <ops>: the connection automaton over a sequence of calls and
+     peer events (Model/C08Seq.lean, the code = Variant.latch); ops = r<k> | w | ra | la | h | sd<ms> | sdc | c | m;
+     answers d:<hex> | eof | w | a:<sel> | h:<version> | e:<short|refused|timeout|closed> | ok | m | blocked
+     (a stored header error and an error of the socket itself are told apart by `!`: e:timeout vs e!timeout) -/
+  | ["seq", to, fin, hx, later, ops] =>
+    let ops? : Option (List SOp) := (splitList ops).mapM fun o =>
+      if o = "w" then some SOp.write else if o = "ra" then some .remoteAddr else if o = "la" then some .localAddr
+      else if o = "h" then some .header else if o = "c" then some .close else if o = "m" then some .more
+      else if o = "sdc" then some (.setDeadline none)
+      else if o.startsWith "sd" then (o.drop 2).toNat?.map fun n => SOp.setDeadline (some n)
+      else if o.startsWith "r" then (o.drop 1).toNat?.map SOp.read else none
+    match natOf to, boolOf fin, bytesOfHex hx, bytesOfHex later, ops? with
+    | some to, some fin, some bs, some later, some ops =>
+      let (c, outs) := SConn.run .latch to { phase := .pending bs, later := later, fin := fin } ops
+      let encE : SeqErr → String
+        | .hdr e => if e.cls = .short then "short" else "refused"
+        | .cut => "timeout"
+        | .closed => "closed"
+      let enc : SOut → String
+        | .data d => s!"d:{hexOfBytes d}" | .eof => "eof" | .wrote => "w" | .addr a => s!"a:{encSel a}"
+        | .header h => s!"h:{h.version}" | .fail e => s!"e:{encE e}" | .ioTimeout => "e!timeout" | .ioClosed => "e!closed"
+        | .done => "ok" | .arrived => "m" | .blocked => "blocked"
+      let ph := match c.phase with
+        | .pending _ => "pending" | .failed e => s!"failed:{encE e}" | .ok _ _ => "ok"
+      s!"parses={c.parses} phase={ph} {joinList2 (outs.map enc)}"
+    | _, _, _, _, _ => "bad-op"
   | ["parseip", hx] =>
     match bytesOfHex hx with
     | none => "bad-op"
